@@ -122,7 +122,8 @@ class _EscStr:
                 tab = {ast.Lt: f'(c <? {k})', ast.LtE: f'(c <=? {k})', ast.Gt: f'({k} <? c)', ast.GtE: f'({k} <=? c)',
                        ast.Eq: f'(c =? {k})', ast.NotEq: f'(negb (c =? {k}))'}
                 if type(op) in tab:
-                    return tab[type(op)], set()
+                    lb = {ast.Gt: k + 1, ast.GtE: k, ast.Eq: k}.get(type(op))
+                    return tab[type(op)], ({('lb', lb)} if lb is not None else set())
             if isinstance(l, ast.Name) and l.id == self.ch and isinstance(r, ast.Constant) and isinstance(r.value, str) \
                     and len(r.value) == 1 and isinstance(op, (ast.Eq, ast.NotEq)):
                 t = f'(c =? {ord(r.value)})'
@@ -144,13 +145,37 @@ class _EscStr:
                 _fail(f'escape_str line {e.lineno}: {e.value.id}[ch] outside `if ch in {e.value.id}` (KeyError is not modelled)')
             return f'(dict_get c {e.value.id})'
         if isinstance(e, ast.Call) and isinstance(e.func, ast.Name) and e.func.id == 'upper_hex' and not e.keywords \
-                and 1 <= len(e.args) <= 2 and isinstance(e.args[0], ast.Name) and e.args[0].id == self.chnum:
+                and 1 <= len(e.args) <= 2:
+            n = self.num(e.args[0], guards)
             if len(e.args) == 1:
-                return '(upper_hex c None)'
+                return f'(upper_hex {n} None)'
             k = e.args[1]
             if isinstance(k, ast.Constant) and type(k.value) is int and 0 <= k.value <= 16:
-                return f'(upper_hex c (Some {k.value}%nat))'
+                return f'(upper_hex {n} (Some {k.value}%nat))'
         _fail(f'escape_str line {e.lineno}: unsupported written text `{ast.unparse(e)[:80]}`')
+
+    def num(self, e, guards):
+        """a non-negative integer expression over chNum -> Gallina N.  `chNum - K` only where a guard chNum >= K is in force
+        (N subtraction truncates, Python's does not)"""
+        if isinstance(e, ast.Name) and e.id == self.chnum:
+            return 'c'
+        if isinstance(e, ast.Constant) and type(e.value) is int and e.value >= 0:
+            return str(e.value)
+        if isinstance(e, ast.BinOp):
+            r = e.right
+            rk = r.value if isinstance(r, ast.Constant) and type(r.value) is int and r.value >= 0 else None
+            if isinstance(e.op, ast.Add):
+                return f'({self.num(e.left, guards)} + {self.num(e.right, guards)})'
+            if isinstance(e.op, ast.Sub) and isinstance(e.left, ast.Name) and e.left.id == self.chnum and rk is not None:
+                lb = max([g[1] for g in guards if isinstance(g, tuple) and g[0] == 'lb'], default=0)
+                if lb >= rk:
+                    return f'(c - {rk})'
+                _fail(f'escape_str line {e.lineno}: `{ast.unparse(e)}` without a guard {self.chnum} >= {rk} in force')
+            if isinstance(e.op, ast.RShift) and rk is not None:
+                return f'(N.shiftr {self.num(e.left, guards)} {rk})'
+            if isinstance(e.op, ast.BitAnd) and rk is not None:
+                return f'(N.land {self.num(e.left, guards)} {rk})'
+        _fail(f'escape_str line {e.lineno}: unsupported integer expression `{ast.unparse(e)[:80]}`')
 
 
 def _translate_escape_str(fn):
